@@ -12,7 +12,28 @@ def tree_hashes(repo):
                     p = os.path.join(d, f)
                     out[os.path.relpath(p, repo)] = hashlib.sha256(open(p, "rb").read()).hexdigest()
     return out
+def baseline_fn_texts(repo):
+    """verbatim text of every item the unit templates extract, on the baseline tree.  Used ONLY to adapt GHOST text (invariants,
+    hints) to renamed locals (run_check.py adapt_ghost_renames): never verified, never compared with the code under test"""
+    import re, glob
+    sys.path.insert(0, os.path.join(ROOT, "tools"))
+    import extract
+    out, cache = {}, {}
+    for t in sorted(glob.glob(os.path.join(ROOT, "vc", "units", "*.rs.tmpl"))):
+        for l in open(t):
+            m = re.match(r"\s*//@extract\s+(\S+)\s*::\s*(.+)$", l.strip())
+            if not m: continue
+            f, path = m.group(1), m.group(2).strip()
+            try:
+                src, item = extract.locate(repo, f, path, cache)
+                out["%s :: %s" % (f, path)] = src[item.start:item.end]
+            except Exception as e:
+                print("baseline_fn_texts: %s :: %s not found (%s)" % (f, path, e))
+    return out
 if __name__ == "__main__":
     repo = sys.argv[1] if len(sys.argv) > 1 else "/repo"
     json.dump({"files": tree_hashes(repo)}, open(os.path.join(ROOT, "vc", "baseline_tree.json"), "w"), indent=1, sort_keys=True)
     print("baseline recorded:", len(tree_hashes(repo)), "files")
+    fns = baseline_fn_texts(repo)
+    json.dump(fns, open(os.path.join(ROOT, "vc", "baseline_fns.json"), "w"), indent=0, sort_keys=True)
+    print("baseline item texts recorded:", len(fns))
